@@ -12,7 +12,8 @@ from .. import coqenc as q
 ID = 'C15'
 RULE = ('exhaustive small scope: every non-decreasing spike train up to the tier\'s length on a small sample '
         'grid (identical times included) x every labelling over 3 clusters (4 on short trains in thorough); thorough: '
-        'x every binsize in {1,2,3} x half-window in {0..3} for trains up to 4 spikes (both symmetrize settings up to 3), '
+        'x every binsize in {1,2,3} x half-window in {0..3} for trains up to 3 spikes (both symmetrize settings), a hash-chosen '
+        '2/3 of that grid for trains of 4 spikes, '
         'parameters cycling for longer trains; quick: trains up to 3 spikes with a hash-chosen half of the 12 '
         '(binsize, half-window) settings per train x labelling, trains of 4 spikes with one setting each; caller '
         'cluster-id orders (one containing ids without spikes, and the cluster_ids=None default), window sizes that '
@@ -135,7 +136,7 @@ def generate(tier, rng):
     # ---- exhaustive small scope -----------------------------------------------------------------------
     # (a) full grid: trains x labellings x binsize x W; quick: the four (id order, symmetrize) settings
     #     are hash-chosen on half of the grid; thorough: the full grid, both symmetrize settings for trains
-    #     up to 3 spikes, one hash-chosen setting for 4 spikes, id order alternating
+    #     up to 3 spikes; 4 spikes: 8 of the 12 settings, one hash-chosen symmetrize setting each
     kfull, gfull = (3, 5) if quick else (4, 5)
     orders3 = _id_orders(3, False)
     n = 0
@@ -159,7 +160,8 @@ def generate(tier, rng):
                         cases.append(_mk(t, labels, orders3[c % 2], 1, bs, win, True))
                     else:
                         h = ((n * 12 + bi * 4 + W) * 2654435761 % 2 ** 32) >> 13
-                        cases.append(_mk(t, labels, orders3[(h >> 1) & 1], 1, bs, win, (h >> 2) & 1))
+                        if (h >> 3) % 3:             # 8 of the 12 settings per train x labelling
+                            cases.append(_mk(t, labels, orders3[(h >> 1) & 1], 1, bs, win, (h >> 2) & 1))
     # (b) longer trains / more clusters: every train x labelling once, parameters cycling through the grid
     scopes = [(4, 4, 5, 3)] if quick else [(5, 5, 5, 3), (6, 6, 4, 2), (1, 4, 5, 4)]
     for kmin, kmax, gmax, nl in scopes:
